@@ -129,12 +129,16 @@ import (
 	"scn/rec"
 )
 
+// errRefused is a sentinel, as user code commonly writes it: every plain refusal returns this same pointer
+// (the refusal with a payload below is allocated per call, so both habits are exercised).
+var errRefused = &runtime.SecurityError{Message: "refused", StatusCode: runtime.StatusUnauthorized}
+
 func GleeceRequestAuthorization(ctx context.Context, _ ` + typ + `, check runtime.SecurityCheck) (context.Context, *runtime.SecurityError) {
 	switch rec.Auth(check.SchemaName, check.Scopes) {
 	case 0:
 		return context.WithValue(ctx, rec.Key, "approved"), nil
 	case 1:
-		return ctx, &runtime.SecurityError{Message: "refused", StatusCode: runtime.StatusUnauthorized}
+		return ctx, errRefused
 	default:
 		return ctx, &runtime.SecurityError{Message: "refused with payload", StatusCode: runtime.StatusForbidden,
 			CustomError: &runtime.CustomError{Payload: map[string]any{"custom": "payload", "scheme": check.SchemaName}}}
